@@ -146,6 +146,15 @@ def r_transform(ck: Checker) -> None:
     nn = ck.func(f"{CLS}._new_name")
     fresh = resolved_calls(ck.prg, nn, "ngo.utils.globals:UniqueNames.new_predicate")
     ck.add("new predicate name is fresh", len(fresh) == 1, nn, nn.node, f"_new_name obtains the name from UniqueNames.new_predicate: {len(fresh)}", "the shrunken predicate must not collide with an existing one of the same arity")
+    # ... on every path: whatever is remembered as the new name came out of new_predicate for the reduced signature
+    stores = [a for a in find_nodes(nn.node, lambda x: isinstance(x, ast.Assign)) if isinstance(a.targets[0], ast.Subscript) and unparse(a.targets[0].value) == "self.new_names"]  # type: ignore[attr-defined]
+    ck.need(len(stores) >= 1, "_new_name remembers the chosen name in self.new_names")
+    np_ = nn.params()[2]
+    for a in stores:
+        val = unparse(a.value).replace(" ", "")  # type: ignore[attr-defined]
+        okv = val == f"self.unique_names.new_predicate({np_}.name,{np_}.arity).name"
+        ck.add("every remembered name was handed out by UniqueNames for the reduced (name, arity)", okv, nn, a, f"`{short(unparse(a), 100)}`",
+               "a name kept without asking is not registered with the name generator: a second predicate reduced to the same signature gets the very same name (one invented predicate serves two purposes)")
     # applied to every SymbolicAtom of every statement
     pu = ck.func(f"{CLS}._project_unused_stm")
     calls = resolved_calls(ck.prg, pu, "ngo.utils.ast:transform_ast")
@@ -339,7 +348,7 @@ def r_convert(ck: Checker) -> None:
 RULES = [
     Rule("C09.EXHAUST.usage", P, r_usage_scan, extra={"C07": ("body of External", "body of Edge", "body of Heuristic", "body of ProjectAtom")}),
     Rule("C09.F2.interface", P + ("C07",), r_interface_used),
-    Rule("C09.F.transform", P, r_transform),
+    Rule("C09.F.transform", P, r_transform, extra={"C07": ("new predicate name is fresh", "every remembered name was handed out")}),
     Rule("C09.E.remove-unused", P, r_remove_unused),
     Rule("C09.A.single-copies", P, r_single_copies),
     Rule("C09.A.convert", P, r_convert),
